@@ -1,4 +1,5 @@
 #include <cstring>
+#include <stdint.h>
 
 #include <occa/types/bits.hpp>
 #include <occa/types/primitive.hpp>
@@ -253,6 +254,12 @@ namespace occa {
       default: return "";
     }
 
+    // An unsigned value beyond the range of the signed type of its width
+    // is only read back as the same number with the U suffix
+    if (((type & primitiveType::uint32_) && (value.uint32_ > (uint32_t) INT32_MAX)) ||
+        ((type & primitiveType::uint64_) && (value.uint64_ > (uint64_t) INT64_MAX))) {
+      str += 'U';
+    }
     if (type & (primitiveType::uint64_ |
                 primitiveType::int64_)) {
       str += 'L';
